@@ -33,3 +33,8 @@ CHECKS["C19"] = (
  "7.5*10^4 (quick) / 2.1*10^6 (thorough) cases: BinaryWriter bytes compared with encoding/binary, every read on every backend compared with a model {data,pos,eof}, Seek compared with bytes.Reader for all (whence, target), Read/ReadAt io contracts, Bitmap round trip and 8*len bits, and goroutines doing parallel ReadAt on one reader and on clones under the -race build. Held on what was observed.",
  "Readings of the short-read and Seek-beyond-end cases are listed in the evidence assumptions. Race clause rests on the Go race detector's happens-before analysis of the executions produced.",
  "DESIGN.md §4 C19")
+CHECKS["C02"] = (
+ "tiling / pointer-range trace monitor over token events, re-lex differential, buffer diff against a pristine copy (runtime monitoring)",
+ "2*10^6 (quick) / 4.8*10^7 (thorough) hostile inputs through the css, js, html (plain and 3 template dialects) and xml lexers with 4 Input constructors: every token is compared with the buffer at the offset reported after the call, order/non-emptiness/no spare capacity are asserted, css and js tokens before the first lexical error must tile exactly and re-lex to themselves, html/xml gaps must be tag-internal whitespace, Text/AttrKey/AttrVal must lie inside their token, and the buffer is diffed with a pristine copy for rewrites outside the allowed regions. Held on what was observed.",
+ "Readings of the allowed rewrites (whole end-tag token lower-cased, names of foreign elements cut short by NUL) are listed in the evidence assumptions and DESIGN.md §4 C02.",
+ "DESIGN.md §4 C02")
